@@ -27,6 +27,7 @@ EXPLANATION = (
     "(D2r) the value and covariance arrays are reported as computed (no clipping / snapping afterwards); (D4s) the signed counts are summed as integers and divided by the number of shots once, so a constant term contributes exactly its coefficient."
     ' Round 4: the correlation matrix is sized by len() of the enumerated term sequence.'
     ' Round 5: (D8) is_ising is "every factor is Z" (constants qualify; no set equality with {Z}), is_constant looks at the factors only; two loop positions are told apart by index, never by comparing the terms; (D7) no unsound cache.'
+    " Round 6/7: one parity over several terms' qubits put together is refused unless it is their symmetric difference (D6)."
 )
 RULE_TEXT = "instances = statements/expressions of Measurements.get_expectation_values, get_expectation_value_from_frequencies, check_parity_of_vector, get_counts/add_counts/get_distribution, get_parities_from_measurements; distinct by (rule, construct)"
 ASSUMPTIONS = [
